@@ -692,11 +692,20 @@ def bytes_unroll(I, b):
 def _join(I, recv, args, kw):
     ex = I.ex
     (it,) = args
+    if isinstance(recv, SMarkup):
+        I.use("Markup.join(xs): escapes every element that is not Markup; the result is Markup")
+        return ex.fresh("joined", "markup")
     if isinstance(it, HJoin):
         if recv != "":
             raise Unsupported("join-list with non-empty separator")
         return it.acc
     items = ex.iter_concrete(it)
+    if items is None and is_tagged(it, "gen"):
+        _, node, frame, seq = it
+        src = ast.unparse(node.elt)
+        F = z3.Function(f"join[{src}]", StrSort, seq.t.sort(), StrSort)
+        I.use(f"sep.join(<{src}> for x in seq): an uninterpreted fold over the sequence (the element function is the recursive call)")
+        return SStr(F(ex.to_str_term(recv), seq.t))
     if items is None:
         raise Unsupported("str.join of symbolic iterable")
     out = None
@@ -1208,3 +1217,44 @@ def _is_file(I, recv, args, kw):
 def _stat(I, recv, args, kw):
     I.use("Path.stat().st_mtime: the file's current modification time (an opaque real)")
     return HObj(ClassRef("stat_result"), {"st_mtime": SReal(z3.Real("stat.st_mtime"))})
+
+
+# ------------------------------------------------------------------ markupsafe (assumed contract)
+import markupsafe as _markupsafe
+
+F_esc = z3.Function("html_escape", StrSort, StrSort)
+
+
+@ext(_markupsafe.escape)
+def _ms_escape(I, args, kw):
+    ex = I.ex
+    (v,) = args
+    I.use("markupsafe.escape(v): v itself when it is Markup / has __html__, else Markup(html_escape(str(v))) - no unescaped < > & ' \" in the result")
+    if isinstance(v, SMarkup):
+        return v
+    if isinstance(v, (SStr, str)):
+        return SMarkup(F_esc(ex.to_str_term(v)))
+    if isinstance(v, SAny):
+        return ex.fresh("escaped", "markup")
+    s = I.str_(v)
+    return SMarkup(F_esc(ex.to_str_term(s)))
+
+
+@ext(_markupsafe.Markup)
+def _ms_markup(I, args, kw):
+    ex = I.ex
+    if not args:
+        return SMarkup(z3.Empty(StrSort))
+    v = args[0]
+    if isinstance(v, SMarkup):
+        return v
+    if isinstance(v, (SStr, str)):
+        ex.trace_event("markup", v)
+        return SMarkup(ex.to_str_term(v))
+    raise Unsupported(f"Markup({v!r})")
+
+
+@meth("str", "unescape")
+def _ms_unescape(I, recv, args, kw):
+    I.use("Markup.unescape(): a plain str")
+    return I.ex.fresh("unescaped", "str")
